@@ -139,6 +139,15 @@ def classify(tok):
     return "word"
 
 
+def lit_with_help(fam):
+    """a word tag (`literal`, an `any` item) that carries a help text, inside an adjacent group: listed like the others"""
+    for d in fam:
+        for f in d["named"]:
+            if f["kind"] == "adj" and f["head"]["kind"] == "lit":
+                f["head"]["help"] = f"HELP-lit-{d['id']}"
+    return fam
+
+
 def run(v):
     ensure_dirs()
     hbin = build_harness()
@@ -152,7 +161,7 @@ def run(v):
     q = v.tier == "quick"
     fam += D.alt_pos_family(SEED + 121, 8 if q else 40) + D.alt_env_family(SEED + 122, 8 if q else 40) + \
         D.tree_group_family(SEED + 123, 8 if q else 40, kinds=("alt", "adj")) + D.flagguard_family(SEED + 124, 6 if q else 18) + \
-        D.catch_family(SEED + 125, 6 if q else 18)
+        D.catch_family(SEED + 125, 6 if q else 18) + lit_with_help(D.littag_family(SEED + 127, 4 if q else 12))
     D.api_variants(fam, SEED + 126)
     recs, t = judge_render(v, "C12", hbin, fam, "h", usage=True)
     # the documentation generated for a sample of the same definitions repeats the usage line of every level
